@@ -29,6 +29,14 @@ def check(run, project):
     late_binding_closures(run, project, "T8", sorted(n for n in project.modules if n == "tpmstream.__main__" or n.startswith("tpmstream.io")
                                                        or n.startswith("tpmstream.common")),
                           what="with several input files / chunks only the last one is decoded")
+    from .shared import reads_every_file
+    reads_every_file(run, project, "T9", what="the decoder is fed a prefix of its source")
+    # T10 (= C03-R4): what a decode does depends on its own input only - it starts from its own empty list of open regions
+    # (a shared default list would charge this decode with the regions an earlier, abandoned decode left open)
+    from ..report import RuleView as _RV10
+    from ..roles import MarshalRoles as _MR10
+    from . import c03 as _c03
+    _c03.r4(_RV10(run, "R4", "T10"), _MR10(project))
     F = pump.analyse(project)
     roles, mod, fn = F.roles, F.roles.mod, F.roles.pump
     run.explanation = "typestate fixpoint over the pump's CFG + who-may-use rules for the source iterator and buffer parameters"
